@@ -13,6 +13,9 @@ partial def loop (h : IO.FS.Stream) : IO Unit := do
     match crashPoints.find? (fun p => p.proc == proc && toString p.line == ln) with
     | some p => IO.println s!"reset: {showL (afterReset teardownFacts p)} | exit: {showL (afterExit teardownFacts p)}"
     | none => IO.println "unknown-point"
+  | ["errreset", o, y] =>
+    let s := runReset resetSteps spaDisconnectSteps facadeDisconnectSteps (if o == "self" then .spaTask else .user) (y == "1")
+    IO.println s!"{showL s.ledger} completed={b s.completed}"
   | ["cycles", n] => IO.println s!"{openAfterCycles teardownFacts (n.toNat?.getD 0)}"
   | ["count"] => IO.println s!"{crashPoints.length}"
   | _ => IO.println "bad-op"
